@@ -216,8 +216,21 @@ func appendSnapshotFlavors(b []byte, s *slip.Scope) []byte {
 			fa = append(fa, f)
 		}
 	}
+	// A flavor after the flavors it inherits from and otherwise by name so
+	// that the order is the same every time.
+	depth := map[*flavors.Flavor]int{}
+	for _, f := range fa {
+		for _, f2 := range fa {
+			if f != f2 && f.Inherits(f2) {
+				depth[f]++
+			}
+		}
+	}
 	sort.Slice(fa, func(i, j int) bool {
-		return fa[j].Inherits(fa[i])
+		if depth[fa[i]] != depth[fa[j]] {
+			return depth[fa[i]] < depth[fa[j]]
+		}
+		return fa[i].Name() < fa[j].Name()
 	})
 	for _, f := range fa {
 		b = append(b, '\n')
